@@ -14,12 +14,18 @@ TCls(c) == [k |-> "cls", c |-> c, c2 |-> ""]
 TOpt(c) == [k |-> "opt", c |-> c, c2 |-> ""]
 TList(c) == [k |-> "list", c |-> c, c2 |-> ""]
 TDict(c) == [k |-> "dict", c |-> c, c2 |-> ""]
+TOptList(c) == [k |-> "optlist", c |-> c, c2 |-> ""]
+TListOpt(c) == [k |-> "listopt", c |-> c, c2 |-> ""]
+TOptDict(c) == [k |-> "optdict", c |-> c, c2 |-> ""]
 TUnion(c, c2) == [k |-> "union", c |-> c, c2 |-> c2]
 Pm(n, t, d) == [n |-> n, t |-> t, req |-> FALSE, d |-> d]
 Rq(n, t) == [n |-> n, t |-> t, req |-> TRUE, d |-> NoVal]
 Cl(parent, abs, kw, params) == [parent |-> parent, abs |-> abs, kw |-> kw, params |-> params]
 
-ClassNames == {"Base", "Sub1", "Sub2", "Sub3", "SubKw", "SubKw2", "Other", "Abs", "Conc", "Outer", "OuterOpt", "OuterList", "OuterDict", "OuterUnion", "Outer2"}
+Bd(m, n, c, def, u) == [m |-> m, n |-> n, c |-> c, def |-> def, u |-> u]
+ClassNames == {"Base", "Sub1", "Sub2", "Sub3", "SubKw", "SubKw2", "Other", "Abs", "Conc", "Outer", "OuterOpt", "OuterList", "OuterDict", "OuterUnion", "Outer2",
+               "OuterOptList", "OuterListOpt", "OuterOptDict", "TopOpt",
+               "SubNew~L1", "Sub1~L2", "Fast~Pv2", "Fast~P", "Fast~Qv2", "Fast~Q", "Quick~Rv2"}
 Fam == [cls |-> [c \in ClassNames |->
           CASE c = "Base"   -> Cl("", FALSE, FALSE, <<Pm("a", TInt, VInt(1))>>)
             [] c = "Sub1"   -> Cl("Base", FALSE, FALSE, <<Pm("a", TInt, VInt(2)), Pm("b", TStr, VStr("s"))>>)        \* adds b
@@ -35,11 +41,28 @@ Fam == [cls |-> [c \in ClassNames |->
             [] c = "OuterList"  -> Cl("", FALSE, FALSE, <<Rq("inners", TList("Base"))>>)
             [] c = "OuterDict"  -> Cl("", FALSE, FALSE, <<Rq("inners", TDict("Base"))>>)
             [] c = "OuterUnion" -> Cl("", FALSE, FALSE, <<Rq("inner", TUnion("Base", "Other"))>>)
+            [] c = "OuterOptList" -> Cl("", FALSE, FALSE, <<Pm("inners", TOptList("Base"), VNull)>>)                   \* round 4: Optional[List[Base]] = None
+            [] c = "OuterListOpt" -> Cl("", FALSE, FALSE, <<Rq("inners", TListOpt("Base"))>>)                          \*          List[Optional[Base]]
+            [] c = "OuterOptDict" -> Cl("", FALSE, FALSE, <<Pm("inners", TOptDict("Base"), VNull), Pm("n", TInt, VInt(0))>>)   \*  Optional[Dict[str, Base]] = None
+            [] c = "TopOpt" -> Cl("", FALSE, FALSE, <<Rq("own", TCls("OuterOpt")), Pm("m", TInt, VInt(1))>>)                \*  an owner of an owner with an Optional[Base]
+            \* round 4: classes OUTSIDE the module (see Ext below); the key is not the class's name
+            [] c = "SubNew~L1" -> Cl("Base", FALSE, FALSE, <<Pm("a", TInt, VInt(30)), Pm("e", TStr, VStr("n"))>>)   \* a subclass defined in a module imported LATER
+            [] c = "Sub1~L2"   -> Cl("Base", FALSE, FALSE, <<Pm("a", TInt, VInt(31))>>)                              \* a second subclass NAMED Sub1, appearing later
+            [] c = "Fast~Pv2"  -> Cl("Base", FALSE, FALSE, <<Pm("a", TInt, VInt(20)), Pm("b", TStr, VStr("f"))>>)   \* P/v2.py: the Fast that subclasses Base
+            [] c = "Fast~P"    -> Cl("", FALSE, FALSE, <<Pm("q", TInt, VInt(70))>>)                                  \* P/__init__.py: a legacy Fast, unrelated
+            [] c = "Fast~Qv2"  -> Cl("Base", FALSE, FALSE, <<Pm("a", TInt, VInt(21)), Pm("b", TStr, VStr("g"))>>)   \* Q/v2.py
+            [] c = "Fast~Q"    -> Cl("Base", FALSE, FALSE, <<Pm("a", TInt, VInt(71))>>)                              \* Q/__init__.py: a legacy Fast that ALSO subclasses Base (other defaults, no b)
+            [] c = "Quick~Rv2" -> Cl("Base", FALSE, FALSE, <<Pm("a", TInt, VInt(22))>>)                              \* R/v2.py, re-exported by R/__init__.py (the same object)
             [] c = "Outer2" -> Cl("", FALSE, FALSE, <<Rq("p", TCls("Base")), Rq("p2", TCls("Base"))>>)],      \* two class-typed parameters, p a string prefix of p2
         fn |-> [f \in {"make_base", "make_other"} |->
                   IF f = "make_base" THEN [ret |-> "Base", params |-> <<Pm("a", TInt, VInt(7))>>]
                   ELSE [ret |-> "Other", params |-> <<Pm("a", TInt, VInt(8))>>]],
-        other |-> <<"notclass">>]
+        other |-> <<"notclass">>,
+        ext |-> <<Bd("L1", "SubNew", "SubNew~L1", TRUE, "L1"), Bd("L2", "Sub1", "Sub1~L2", TRUE, "L2"),
+                  Bd("P.v2", "Fast", "Fast~Pv2", TRUE, "P"), Bd("P", "Fast", "Fast~P", TRUE, "P"),
+                  Bd("Q.v2", "Fast", "Fast~Qv2", TRUE, "Q"), Bd("Q", "Fast", "Fast~Q", TRUE, "Q"),
+                  Bd("R.v2", "Quick", "Quick~Rv2", TRUE, "R"), Bd("R", "Quick", "Quick~Rv2", FALSE, "R")>>,
+        late |-> <<"L1", "L2", "P", "Q", "R">>, vis |-> << >>]
 
 \* ---------------------------------------------------------------- vocabulary
 Bare(n) == VRef("", n)
@@ -144,8 +167,54 @@ ItemsOuter2 == <<
   C(D1("init_args", D2("p", CPI(Bare("Sub1"), D1("a", VInt(6))), "p2", Bare("Base")))),                      \* 10 p2 -> Base (lacks b)
   C(D1("init_args", D1("p2", InnerSub2))), W(Bare("Outer2"))                                                 \* 11 only p2 given; 12
 >>
-Decl == <<"Base", "Outer", "OuterOpt", "OuterList", "OuterDict", "OuterUnion", "Abs", "SubKw", "Outer2">>
-Vocab(t) == CASE t = "Outer2" -> ItemsOuter2 [] t = "Base" -> ItemsBase [] t = "Outer" -> ItemsOuter [] t = "OuterOpt" -> ItemsOuterOpt [] t = "OuterList" -> ItemsOuterList
+\* round 4: containers one level deeper -- null for the whole container / for an element, short forms of elements after a
+\* null / a spec / a list of another length, class changes inside elements across sources
+ItemsOuterOptList == <<
+  W(Bare("OuterOptList")), W(D1("inners", L2(Bare("Sub1"), CPI(Bare("Base"), D1("a", VInt(0)))))), Dt(<<"inners">>, VNull),           \* 1-3
+  Dt(<<"inners">>, L2(CPI(Bare("Sub1"), D1("b", VStr("k"))), InnerSub2)),                                                               \* 4
+  W(D1("inners", L2(IA("a", VInt(6)), Bare("Sub3")))),                                                                                  \* 5 element 1 short, element 2 changes class
+  W(D1("inners", VList(<<Bare("Other")>>))), C(CPI(Bare("OuterOptList"), D1("inners", VList(<<InnerSub2>>)))), W(D1("inners", VInt(3))),  \* 6-8
+  C(D1("init_args", D1("inners", L2(D1("b", VStr("z")), IA("a", VInt(7))))))                                                            \* 9 parameters only / init_args only elements
+>>
+ItemsOuterListOpt == <<
+  W(D1("inners", L2(Bare("Sub1"), VNull))), Dt(<<"inners">>, L2(VNull, InnerSub2)),                                                     \* 1-2
+  W(D1("inners", L2(IA("a", VInt(6)), IA("a", VInt(7))))),                                                                              \* 3 short forms (after null: the declared class)
+  W(D1("inners", VList(<<VNull>>))), C(CPI(Bare("OuterListOpt"), D1("inners", L2(CPI(Bare("Sub1"), D1("b", VStr("k"))), Bare("Sub2"))))),  \* 4-5 (Sub2 lacks its required c)
+  Dt(<<"inners">>, L2(Bare("Sub3"), D1("b", VStr("z")))), W(D1("inners", VList(<<Path("Other")>>))), W(Bare("OuterListOpt")),           \* 6-8
+  C(D1("inners", L2(CPI(Path("Sub1"), D2("a", VInt(5), "b", VStr("k"))), CPI(Bare("Sub1"), D1("b", VStr("w"))))))                        \* 9
+>>
+ItemsOuterOptDict == <<
+  W(Bare("OuterOptDict")), W(D1("inners", DK2(ES1, ES1w))), Dt(<<"inners">>, VNull), C(D1("inners", DK2(IA("a", VInt(6)), IA("a", VInt(7))))),   \* 1-4
+  W(D1("inners", D1("k2", CPI(Bare("Sub3"), D1("a", VStr("u")))))), Dt(<<"inners">>, D1("k1", Path("Other"))), Dt(<<"n">>, VInt(4)),   \* 5-7
+  C(CPI(Bare("OuterOptDict"), D1("inners", D1("k1", D1("b", VStr("z"))))))                                                               \* 8 parameters only
+>>
+\* dotted options two levels down, null among the values
+ItemsTopOpt == <<
+  W(Bare("TopOpt")), Dt(<<"own", "inner">>, VNull), Dt(<<"own", "inner">>, Bare("Sub1")), Dt(<<"own", "inner", "a">>, VInt(3)),              \* 1-4
+  W(D1("own", D1("inner", VNull))), Dt(<<"own">>, D1("inner", VNull)), Dt(<<"init_args", "own", "init_args", "inner">>, InnerSub2),          \* 5-7
+  C(CPI(Bare("TopOpt"), D1("own", CPI(Bare("OuterOpt"), D1("inner", CPI(Bare("Sub1"), D1("b", VStr("k")))))))), Dt(<<"m">>, VInt(2))           \* 8-9
+>>
+\* round 4: sub-config files (sub_configs=True / enable_path=True).  File(v) = the path of a file whose content is v: a class spec,
+\* init_args only, parameters only, a bare class name; as the value of the argument, of a --cfg entry, of a class-typed
+\* parameter inside a spec, of a dotted option; a file that names another file; mixed with the other notations
+File(v) == [k |-> "file", v |-> v]
+ItemsBaseF == <<
+  W(File(CPI(Bare("Sub1"), D1("b", VStr("k"))))), W(File(D1("init_args", D1("a", VInt(9))))), W(File(D1("a", VInt(9)))),                \* 1-3
+  C(File(CPI(Path("Sub2"), D1("c", VInt(1))))), W(File(CPI(Bare("Sub1"), D1("zz", VInt(5))))), W(File(CPK(Bare("SubKw"), D1("k", VInt(3))))),  \* 4-6
+  W(Bare("Sub1")), W(CPI(Bare("Sub3"), D1("a", VStr("u")))), Dt(<<"b">>, VStr("w")), Dt(<<"a">>, VInt(8))                                  \* 7-10  (a file holds a mapping: a bare class name in a file is not a documented notation)
+>>
+ItemsOuterF == <<
+  W(File(CPI(Path("Outer"), D1("inner", Bare("Sub1"))))), W(CPI(Bare("Outer"), D1("inner", File(InnerSub2)))),                           \* 1-2
+  Dt(<<"inner">>, File(CPI(Bare("Sub1"), D1("b", VStr("k"))))), Dt(<<"inner">>, File(D1("init_args", D1("a", VInt(7))))),                \* 3-4
+  W(D1("inner", File(InnerSub2))), Dt(<<"inner", "a">>, VInt(3)), C(CPI(Bare("Outer"), D1("inner", File(CP(Path("Other")))))),           \* 5-7
+  W(File(CPI(Bare("Outer"), D1("inner", File(CPI(Bare("Sub3"), D1("a", VStr("u")))))))), Dt(<<"inner">>, Bare("Sub2"))                    \* 8 a file that names a file; 9
+>>
+\* a vocabulary name that is not a class: the declared class it belongs to
+DeclT(t) == CASE t = "BaseF" -> "Base" [] t = "OuterF" -> "Outer" [] OTHER -> t
+Decl == <<"Base", "Outer", "OuterOpt", "OuterList", "OuterDict", "OuterUnion", "Abs", "SubKw", "Outer2", "OuterOptList", "OuterListOpt", "OuterOptDict", "TopOpt",
+          "BaseF", "OuterF">>
+Vocab(t) == CASE t = "BaseF" -> ItemsBaseF [] t = "OuterF" -> ItemsOuterF [] t = "TopOpt" -> ItemsTopOpt [] t = "OuterOptList" -> ItemsOuterOptList [] t = "OuterListOpt" -> ItemsOuterListOpt [] t = "OuterOptDict" -> ItemsOuterOptDict
+              [] t = "Outer2" -> ItemsOuter2 [] t = "Base" -> ItemsBase [] t = "Outer" -> ItemsOuter [] t = "OuterOpt" -> ItemsOuterOpt [] t = "OuterList" -> ItemsOuterList
               [] t = "OuterDict" -> ItemsOuterDict [] t = "OuterUnion" -> ItemsOuterUnion [] t = "Abs" -> ItemsAbs [] t = "SubKw" -> ItemsSubKw
 
 \* sequences of three sources are built from the core of the two large vocabularies (all items of the small ones)
@@ -166,23 +235,68 @@ DIds == {<<"D", d, ch, i1, i2>> : d \in 1..Len(Defaults), ch \in 1..2, i1 \in 1.
         \cup {<<"D", d, 1, 0, i2>> : d \in 1..Len(Defaults), i2 \in 0..Len(SecondD)}                 \* the default alone / only a dotted option
 DItems(id) == (IF id[4] = 0 THEN << >> ELSE <<W(FirstD[id[4]])>>) \o (IF id[5] = 0 THEN << >> ELSE <<SecondD[id[5]]>>)
 
+\* ---------------------------------------------------------------- round 4: HISTORIES over the family and package LAYOUTS
+\* A history = the parses of ONE process, in order, interleaved with imports of late units.  Every parse is a case whose family is
+\* the family AT THAT TIME (vis = the late units imported by the earlier steps: an "import" step, or a parse that names a path in
+\* the unit -- import_object imports it whether or not the value is then accepted).
+Ps(t, items) == [ev |-> "parse", T |-> t, items |-> items, m |-> ""]
+Imp(u) == [ev |-> "import", T |-> "", items |-> << >>, m |-> u]
+XRef(m, n) == VRef(m, n)
+Hists == <<
+  \* 1: a subclass defined AFTER the short names of its base were first resolved
+  << Ps("Base", <<W(Bare("Sub1"))>>), Ps("Base", <<W(Bare("SubNew"))>>), Imp("L1"), Ps("Base", <<W(Bare("SubNew"))>>),
+     Ps("Base", <<W(CPI(Bare("SubNew"), D1("e", VStr("k"))))>>), Ps("Base", <<W(Bare("Sub1")), W(CP(Bare("SubNew")))>>), Ps("Outer", <<W(D1("inner", Bare("SubNew")))>>) >>,
+  \* 2: ... brought in by an explicit class_path of an earlier parse
+  << Ps("Base", <<W(Bare("SubNew"))>>), Ps("Base", <<W(XRef("L1", "SubNew"))>>), Ps("Base", <<W(Bare("SubNew")), Dt(<<"e">>, VStr("w"))>>),
+     Ps("Outer", <<W(Bare("Outer")), Dt(<<"inner">>, Bare("SubNew"))>>) >>,
+  \* 3: a SECOND subclass with the same short name appears: the short name is ambiguous from then on, the paths are not
+  << Ps("Base", <<W(Bare("Sub1"))>>), Imp("L2"), Ps("Base", <<W(Bare("Sub1"))>>), Ps("Base", <<W(Path("Sub1"))>>), Ps("Base", <<W(XRef("L2", "Sub1"))>>),
+     Ps("Base", <<W(CPI(Bare("Sub1"), D1("a", VInt(5))))>>), Ps("Base", <<W(CPI(XRef("L2", "Sub1"), D1("b", VStr("k"))))>>), Ps("Base", <<W(Bare("Sub2"))>>),
+     Ps("Base", <<W(Path("Sub1")), Dt(<<"b">>, VStr("w"))>>), Ps("Base", <<W(XRef("L2", "Sub1")), W(Path("Sub1"))>>) >>,
+  \* 4: package P -- P/__init__.py binds a legacy Fast (unrelated), P/v2.py defines the Fast that subclasses Base
+  << Ps("Base", <<W(XRef("P.v2", "Fast"))>>), Ps("Base", <<W(CPI(XRef("P.v2", "Fast"), D1("b", VStr("k"))))>>), Ps("Base", <<W(XRef("P", "Fast"))>>),
+     Ps("Base", <<W(Bare("Fast"))>>), Ps("Base", <<W(CPI(XRef("P.v2", "Fast"), D1("q", VInt(1))))>>), Ps("Base", <<W(XRef("P.v2", "Fast")), Dt(<<"b">>, VStr("w"))>>),
+     Ps("Outer", <<W(D1("inner", CPI(XRef("P.v2", "Fast"), D1("a", VInt(4)))))>>) >>,
+  \* 5: package Q -- the legacy Fast of Q/__init__.py ALSO subclasses Base (other defaults, no parameter b)
+  << Ps("Base", <<W(XRef("Q.v2", "Fast"))>>), Ps("Base", <<W(XRef("Q", "Fast"))>>), Ps("Base", <<W(CPI(XRef("Q.v2", "Fast"), D1("b", VStr("k"))))>>),
+     Ps("Base", <<W(CPI(XRef("Q", "Fast"), D1("b", VStr("k"))))>>), Ps("Base", <<W(Bare("Fast"))>>), Ps("Base", <<W(XRef("Q", "Fast")), W(XRef("Q.v2", "Fast"))>>),
+     Ps("Base", <<W(CPI(XRef("Q.v2", "Fast"), D1("b", VStr("k")))), W(XRef("Q", "Fast"))>>), Ps("Base", <<W(XRef("Q.v2", "Fast")), Dt(<<"b">>, VStr("w"))>>) >>,
+  \* 6: package R -- R/__init__.py re-exports the Quick of R/v2.py: both paths are the same object
+  << Ps("Base", <<W(XRef("R.v2", "Quick"))>>), Ps("Base", <<W(XRef("R", "Quick"))>>), Ps("Base", <<W(Bare("Quick"))>>),
+     Ps("Base", <<W(CPI(XRef("R", "Quick"), D1("a", VInt(5)))), W(D1("class_path", XRef("R.v2", "Quick")))>>), Ps("Base", <<W(XRef("R", "Nope"))>>) >>,
+  \* 7: the packages met in another order, the short name Fast meaning different things over time
+  << Ps("Base", <<W(Bare("Fast"))>>), Imp("P"), Ps("Base", <<W(Bare("Fast"))>>), Imp("Q"), Ps("Base", <<W(Bare("Fast"))>>), Ps("Base", <<W(XRef("P.v2", "Fast"))>>),
+     Ps("Base", <<W(XRef("Q.v2", "Fast"))>>), Imp("R"), Ps("Base", <<W(Bare("Quick"))>>) >>
+>>
+RECURSIVE RefUnits(_)
+RefUnits(v) == CASE v.k = "ref"  -> {b.u : b \in {x \in ExtSet(Fam) : x.m = v.m}}
+                 [] v.k = "dict" -> UNION {RefUnits(v.d[n]) : n \in DOMAIN v.d}
+                 [] v.k = "list" -> UNION {RefUnits(v.l[j]) : j \in 1..Len(v.l)}
+                 [] v.k = "file" -> RefUnits(v.v)
+                 [] OTHER        -> {}
+StepUnits(st) == IF st.ev = "import" THEN {st.m} ELSE UNION {RefUnits(st.items[j].v) : j \in 1..Len(st.items)}
+VisBefore(h, k) == SetToSeq(UNION {StepUnits(Hists[h][j]) : j \in 1..(k - 1)})
+AllHIds == {<<"H", h, k, 0>> : h \in 1..Len(Hists), k \in 1..12}
+HIds == {id \in AllHIds : id[3] <= Len(Hists[id[2]]) /\ Hists[id[2]][id[3]].ev = "parse"}
+
 \* ids: <<declared class, i1, i2, i3>>, 0 = no further source
 Ids == UNION {{<<Decl[d], i1, 0, 0>> : i1 \in 1..Len(Vocab(Decl[d]))} : d \in 1..Len(Decl)}
   \cup (IF MaxLen >= 2 THEN UNION {{<<Decl[d], i1, i2, 0>> : i1 \in 1..Len(Vocab(Decl[d])), i2 \in 1..Len(Vocab(Decl[d]))} : d \in 1..Len(Decl)} ELSE {})
   \cup (IF MaxLen >= 3 THEN UNION {{<<Decl[d], i1, i2, i3>> : i1 \in Core(Decl[d]), i2 \in Core(Decl[d]), i3 \in Core(Decl[d])} : d \in 1..Len(Decl)} ELSE {})
 ItemsOf(id) == LET v == Vocab(id[1]) IN
   <<v[id[2]]>> \o (IF id[3] = 0 THEN << >> ELSE <<v[id[3]]>>) \o (IF id[4] = 0 THEN << >> ELSE <<v[id[4]]>>)
-Case(id, items) == IF id[1] = "D" THEN [aid |-> id, T |-> "Base", items |-> items, dflt |-> Defaults[id[2]], chan |-> Chans[id[3]]]
-                   ELSE [aid |-> id, T |-> id[1], items |-> items, dflt |-> NoVal, chan |-> "argv"]
-MCFamOf(c) == Fam                  \* FamOf <- MCFamOf in the cfg: the family is not part of the state
+Case(id, items) == IF id[1] = "H" THEN [aid |-> id, T |-> Hists[id[2]][id[3]].T, items |-> items, dflt |-> NoVal, chan |-> "argv", host |-> "top", vis |-> VisBefore(id[2], id[3])]
+                   ELSE IF id[1] = "D" THEN [aid |-> id, T |-> "Base", items |-> items, dflt |-> Defaults[id[2]], chan |-> Chans[id[3]], host |-> "top", vis |-> << >>]
+                   ELSE [aid |-> id, T |-> DeclT(id[1]), items |-> items, dflt |-> NoVal, chan |-> "argv", host |-> "top", vis |-> << >>]
+MCFamOf(c) == IF c.vis = << >> THEN Fam ELSE [Fam EXCEPT !.vis = c.vis]                  \* FamOf <- MCFamOf in the cfg: the family is not part of the state
 
-Init == \E id \in Ids \cup DIds : /\ cs = Case(id, << >>) /\ pc = "build" /\ i = 1 /\ cur = NoVal /\ ok = "run" /\ log = << >>
+Init == \E id \in Ids \cup DIds \cup HIds : /\ cs = Case(id, << >>) /\ pc = "build" /\ i = 1 /\ cur = NoVal /\ ok = "run" /\ log = << >>
 \* the first step builds the case and does what InitCase does
 ABuild == /\ pc = "build"
-          /\ LET c == Case(cs.aid, IF cs.aid[1] = "D" THEN DItems(cs.aid) ELSE ItemsOf(cs.aid))
-                 d0 == AlgDefault0(Fam, c.T, c.dflt)
+          /\ LET c == Case(cs.aid, IF cs.aid[1] = "H" THEN Hists[cs.aid[2]][cs.aid[3]].items ELSE IF cs.aid[1] = "D" THEN DItems(cs.aid) ELSE ItemsOf(cs.aid))
+                 d0 == AlgDefault0(MCFamOf(c), c.T, c.dflt)
              IN /\ cs' = c
-                /\ cur' = IF d0 = Rej \/ d0 = NoVal THEN NoVal ELSE IF c.chan = "argv" \/ c.items = << >> THEN AlgSubDefaults(Fam, c.T, d0) ELSE d0
+                /\ cur' = IF d0 = Rej \/ d0 = NoVal THEN NoVal ELSE IF c.chan = "argv" \/ c.items = << >> THEN AlgSubDefaults(MCFamOf(c), c.T, d0) ELSE d0
           /\ pc' = "source" /\ UNCHANGED <<i, ok, log>>
 MCNext == ABuild \/ Next
 Spec == Init /\ [][MCNext]_vars
@@ -190,8 +304,9 @@ Spec == Init /\ [][MCNext]_vars
 \* ------------------------------------------------------------------ emission for the replay
 \* (the family is emitted once, by the ASSUME; a case carries its sources, their explicit form and what the spec predicts)
 ASSUME Emit => PrintT(ToJson([fam |-> Fam]))
+ASSUME Emit => PrintT(ToJson([hists |-> Hists]))
 EmitCase == (Emit /\ Done) =>
-  PrintT(ToJson([id |-> cs.aid, T |-> cs.T, items |-> cs.items, dflt |-> cs.dflt, chan |-> cs.chan,
-                 explicit |-> IF cs.dflt = NoVal /\ ~EmptyDictDeviation THEN ExplicitItems(Fam, cs.T, cs.items) ELSE << >>,
+  PrintT(ToJson([id |-> cs.aid, T |-> cs.T, items |-> cs.items, dflt |-> cs.dflt, chan |-> cs.chan, vis |-> cs.vis,
+                 explicit |-> IF cs.dflt = NoVal /\ ~EmptyDictDeviation /\ ~Round4Deviation THEN ExplicitItems(MCFamOf(cs), cs.T, cs.items) ELSE << >>,
                  alg |-> AlgParsed, ref |-> RefOf(NoDev), code |-> RefOf(CodeDev), log |-> log]))
 =============================================================================
